@@ -773,16 +773,20 @@ def codec_requests(ctx, ns, n_values0, n_invalid0, n_strings0):
         # and inside bulk-copied fragments, where implicit zero extension has to overwrite whatever the destination held
         n_enc, limit = (2, 72) if ctx.quick else (4, 400)
         seen = set(strings)
-        for enc in sorted(set(encodings), key=len, reverse=True)[:n_enc]:
+        for enc in sorted((x for x in set(encodings) if len(x) <= 4096), key=len, reverse=True)[:n_enc]:
             cuts = range(len(enc)) if len(enc) <= limit else sorted(set(range(limit // 2)) | set(rng.sample(range(len(enc)), limit // 2)))
             for c in cuts:
                 if enc[:c] not in seen:
                     seen.add(enc[:c])
                     strings.append(enc[:c])
                     ctx.count("codec_truncations")
+        # very long inputs (arrays filled to a capacity of tens of thousands): one is enough
+        longs = [b for b in strings if len(b) > 4096]
+        strings = [b for b in strings if len(b) <= 4096] + longs[:1]
         for b in strings:
             hx = b.hex() or "-"
-            other = rng.choice(encodings).hex() if encodings else "-"
+            small = [x for x in encodings if len(x) <= 4096]
+            other = rng.choice(small).hex() if small else "-"
             other = other or "-"
             gid += 1
             mreq = f"de {gt.tstr} {hx}"
@@ -1173,7 +1177,10 @@ def run(ctx: common.Ctx):
         ctx.extra["translator"] = {"file": "lean/NunavutVerif/Gen/VariantTables.lean", "rewritten": changed, "unions": len(tables)}
     except Exception as e:
         ctx.broken.append({"kind": "translator", "error": f"{type(e).__name__}: {str(e)[:1500]}"})
-    drivers = ctx.prove(["C04"], exes=["variant", "codec"])
+    # C04_genC_* (memory safety of the implementation-shaped C model in both directions, documented exits only, no
+    # serialization assert can fail, prior-state independence of decoding) live in Properties/C01Refine.lean
+    _refine = ["C01Refine"] if (common.LEAN / "NunavutVerif" / "Properties" / "C01Refine.lean").exists() else []
+    drivers = ctx.prove(["C04"] + _refine, exes=["variant", "codec"], name_filter=(lambda n: n.startswith("C04_")) if _refine else None)
     vdrv = drivers.get("variant")
     ctx.rule = ("V: corpus op sequences; every op sequence of length <= L over one object slot and every op pair over two slots for every union of two "
                 "alternatives over {primitive, std::array, variable array, owning struct, flat struct}; seeded random sequences (1-3 slots, length 3-20) "
